@@ -2,9 +2,13 @@
 """prints the prompt for a seeding sub-agent for property <id> (only the property text and a worktree path)"""
 import json, sys
 pid = sys.argv[1]
+# optional second argument: round number (1 -> m1/m2, 2 -> m3/m4, ...)
+rnd = int(sys.argv[2]) if len(sys.argv) > 2 else 1
+L1, L2 = f"m{2*rnd-1}", f"m{2*rnd}"
 p = [json.loads(l) for l in open('/verif/properties.jsonl') if json.loads(l)['id'] == pid][0]
 wt = f"/tmp/seed-{pid}"
-out = f"/tmp/seed-out/{pid}"
+out = f"/tmp/seed-out/{pid}" if rnd == 1 else f"/tmp/seed-r{rnd}/{pid}"
+extra = "" if rnd == 1 else " Look beyond the most obvious site: helper functions, caches and memo tables, flag plumbing, trusted vs untrusted or fast vs slow paths, rarely used public entry points, accumulators and cursor/offset updates, and interactions between two features are all fair game; the two changes should be in different functions and exercise different mechanisms."
 print(f"""You are helping test a verification effort for the Rust repository Chia-Network/chia_rs (Chia blockchain consensus library). You have your own scratch git worktree of the repository at {wt} (work ONLY there; never touch /repo or /verif, and do not read anything under /verif). The sandbox is offline: use `cargo ... --offline`, rust toolchain is pinned by rust-toolchain.toml. Set CARGO_TARGET_DIR={wt}/target for everything you build.
 
 Here is a semantic property that the code is supposed to satisfy:
@@ -15,9 +19,9 @@ Here is a semantic property that the code is supposed to satisfy:
   quantified over: {p['quantifier']['text']}
   code it is anchored in: {', '.join(p['anchors']['files'])}
 
-YOUR TASK: produce up to TWO independent, realistic source changes ("seeded bugs") to the library code (not to tests) under {wt}/crates that each BREAK this property while (a) the workspace still compiles and (b) the repository's existing test suite still passes. Each change should look like a plausible mistake a maintainer could make (an off-by-one, a dropped check, an operation moved across a lock or a cursor update, a wrong accumulator, a stale cache, two sites that each look fine alone ...). IMPORTANT: choose changes that need something SPECIFIC to manifest — a particular interleaving of threads, a multi-step sequence of operations, an unusual input shape or boundary value, a particular flag combination, or two cooperating sites — NOT changes that any ordinary use would expose immediately. Keep each change small (a few lines).
+YOUR TASK: produce up to TWO independent, realistic source changes ("seeded bugs") to the library code (not to tests) under {wt}/crates that each BREAK this property while (a) the workspace still compiles and (b) the repository's existing test suite still passes. Each change should look like a plausible mistake a maintainer could make (an off-by-one, a dropped check, an operation moved across a lock or a cursor update, a wrong accumulator, a stale cache, two sites that each look fine alone ...). IMPORTANT: choose changes that need something SPECIFIC to manifest — a particular interleaving of threads, a multi-step sequence of operations, an unusual input shape or boundary value, a particular flag combination, or two cooperating sites — NOT changes that any ordinary use would expose immediately. Keep each change small (a few lines).{extra}
 
-For each change deliver, under {out}/ (create it), files named m1.* and m2.*:
+For each change deliver, under {out}/ (create it), files named {L1}.* and {L2}.*:
   - mN.patch.diff : the change as `git diff` output relative to the worktree HEAD (must apply with `git apply` to a clean checkout; library source only, no test edits)
   - mN.demo.rs    : a demonstration — a self-contained Rust integration test file (usable as crates/<crate>/tests/<name>.rs, or say exactly where it goes) or small program that FAILS with the change applied and PASSES on the unchanged code. State in a comment at the top of the file where to place it and the exact command to run it.
   - mN.meta.json  : {{"property": "{pid}", "summary": "...what was changed...", "needs_to_manifest": "...the specific input/sequence/interleaving/flags needed...", "crate": "...", "demo_place": "path where the demo file goes", "demo_cmd": "exact command", "tests_run": "what you ran to confirm the existing suite still passes and the result"}}
